@@ -6,7 +6,7 @@
 (* <<property id, predicate name>>.                                         *)
 (***************************************************************************)
 EXTENDS Naturals, Integers, Sequences, FiniteSets, SequencesExt,
-        FiniteSetsExt, Functions, TLC, Text, Vlq, SMap, Sem, Attr
+        FiniteSetsExt, Functions, TLC, Text, Vlq, SMap, Sem, Attr, Compose
 
 NREG == 16
 EmptyHeap == [i \in 0..(NREG - 1) |-> Nil]
@@ -349,6 +349,10 @@ Checks(r, st) ==
                                       THEN {<<"C04", "lines_first_original">>} ELSE {})
                                    \cup {<<"C04", "sources_table">>})
                       ELSE {})
+              \cup (IF C09Domain(TreeOf(r, st))
+                      THEN {IF r.columns THEN <<"C09", "compose_columns">>
+                                         ELSE <<"C09", "compose_lines">>}
+                      ELSE {})
               \cup (IF r.out.map = <<>> /\ C04Domain(TreeOf(r, st))
                       THEN {<<"C04", "no_map_means_no_original">>} ELSE {})
       [] r.op = "law" -> LawChecks(r, st)
@@ -441,6 +445,8 @@ Holds(c, r, st) ==
          IN LineAttrsOfOptMap(r.out.map, StreamText(chunks)) = LineAttrsOfStream(chunks)
     [] c[1] \in {"C13", "C06", "C08"} /\ r.op = "law" -> LawHolds(c, r, st)
     [] c[1] = "C04" -> C04Holds(c, r, t)
+    [] c = <<"C09", "compose_columns">> -> ComposeColumnsOK(t, r.out.map)
+    [] c = <<"C09", "compose_lines">> -> ComposeLinesOK(t, r.out.map)
     [] c = <<"C11", "map_indices_in_tables">> ->
          LET m == MapOf(r)
              segs == DecodeMappings(m.m)
